@@ -63,10 +63,10 @@ func (r *R) ok(cond bool, key string, pos token.Pos, detail string) bool {
 	}
 	return cond
 }
-func (r *R) violated(key string, pos token.Pos, detail string)  { r.add(key, pos, Violated, detail) }
+func (r *R) violated(key string, pos token.Pos, detail string)   { r.add(key, pos, Violated, detail) }
 func (r *R) discharged(key string, pos token.Pos, detail string) { r.add(key, pos, Discharged, detail) }
 func (r *R) excepted(key string, pos token.Pos, reason string)   { r.add(key, pos, Excepted, reason) }
-func (r *R) undecided(key string, pos token.Pos, detail string) { r.add(key, pos, Undecided, detail) }
+func (r *R) undecided(key string, pos token.Pos, detail string)  { r.add(key, pos, Undecided, detail) }
 
 func relPath(base, p string) string {
 	if rel, err := filepath.Rel(base, p); err == nil && !strings.HasPrefix(rel, "..") {
@@ -92,7 +92,6 @@ func register(p *Property) { properties[p.ID] = p }
 var lateInits []func()
 
 func late(f func()) bool { lateInits = append(lateInits, f); return true }
-
 
 // Known findings ---------------------------------------------------------------------------
 
@@ -240,25 +239,25 @@ func writeEvidence(dir string, c *Ctx, res *RunResult, tier string, seed int, st
 		distinct[o.Key] = true
 	}
 	cov := map[string]interface{}{
-		"explanation": "Static analysis of /repo's current source (go/packages + go/types + go/ssa, nothing executed). Decided structural necessary conditions of " + p.ID + " (" + p.Title + "): " + strings.Join(clauses, "; ") + ". Each rule enumerates every obligation it can form on this tree (all functions, all CFG paths) and an obligation that is violated or undecided fails the check; these clauses are necessary for the property, not sufficient - see not_covered.",
-		"obligations":        len(res.Obs),
-		"discharged":         counts[Discharged],
-		"excepted":           counts[Excepted],
-		"violated":           counts[Violated],
-		"undecided":          counts[Undecided],
-		"evaluations":        len(res.Obs),
+		"explanation":         "Static analysis of /repo's current source (go/packages + go/types + go/ssa, nothing executed). Decided structural necessary conditions of " + p.ID + " (" + p.Title + "): " + strings.Join(clauses, "; ") + ". Each rule enumerates every obligation it can form on this tree (all functions, all CFG paths) and an obligation that is violated or undecided fails the check; these clauses are necessary for the property, not sufficient - see not_covered.",
+		"obligations":         len(res.Obs),
+		"discharged":          counts[Discharged],
+		"excepted":            counts[Excepted],
+		"violated":            counts[Violated],
+		"undecided":           counts[Undecided],
+		"evaluations":         len(res.Obs),
 		"distinct_nontrivial": len(distinct),
-		"rule":               "one evaluation = one obligation (rule, construct) formed from the source; distinct = distinct construct keys; every obligation is non-trivial in the sense that its rule names a concrete instruction, call site, path or declaration that must satisfy it",
-		"rules":              perRule,
-		"samples":            samples,
-		"excepted_list":      excepted,
-		"known_findings":     known,
-		"packages_analysed":  c.PkgCount,
-		"functions_analysed": len(c.Funcs),
-		"not_covered":        p.NotCovered,
-		"exhaustive":         true,
-		"checker_cmd":        "/verif/check " + p.ID,
-		"trusted_base":       append([]string{"go/types and go/ssa of golang.org/x/tools v0.29.0", "the go toolchain's parser and type checker", "Go memory model and channel semantics as specified"}, p.Trusted...),
+		"rule":                "one evaluation = one obligation (rule, construct) formed from the source; distinct = distinct construct keys; every obligation is non-trivial in the sense that its rule names a concrete instruction, call site, path or declaration that must satisfy it",
+		"rules":               perRule,
+		"samples":             samples,
+		"excepted_list":       excepted,
+		"known_findings":      known,
+		"packages_analysed":   c.PkgCount,
+		"functions_analysed":  len(c.Funcs),
+		"not_covered":         p.NotCovered,
+		"exhaustive":          true,
+		"checker_cmd":         "/verif/check " + p.ID,
+		"trusted_base":        append([]string{"go/types and go/ssa of golang.org/x/tools v0.29.0", "the go toolchain's parser and type checker", "Go memory model and channel semantics as specified"}, p.Trusted...),
 	}
 	if controls != nil {
 		cov["controls"] = controls
